@@ -921,8 +921,24 @@ class CallMixin(ExprMixin):
             else:
                 raise UnsupportedError(f"set() of {v.ty}")
 
-    def set_of_list(self, lst, st, proj=None):
-        """{proj(x) for x in lst}: fresh set with membership axioms (Skolem index function)."""
+    def set_of_list(self, lst, st, proj=None, cond=None):
+        """{proj(x) for x in lst [if cond(x)]}: fresh set with membership axioms (Skolem index function)."""
+        if cond is not None:
+            sample = proj(V.list_get(lst, z3.IntVal(0))) if proj else V.list_get(lst, z3.IntVal(0))
+            ety = sample.ty
+            (es,) = ety.sorts()
+            r = Val(T.SetT(ety), [z3.Const(V.fresh_name("Sof"), z3.ArraySort(es, z3.BoolSort()))])
+            n = V.list_len(lst)
+            i = z3.Int(V.fresh_name("qi"))
+            x = z3.Const(V.fresh_name("qx"), es)
+            h = z3.Function(V.fresh_name("idx_of"), es, z3.IntSort())
+            elem_i = proj(V.list_get(lst, i)) if proj else V.list_get(lst, i)
+            elem_h = proj(V.list_get(lst, h(x))) if proj else V.list_get(lst, h(x))
+            st.assume(z3.ForAll([i], z3.Implies(z3.And(0 <= i, i < n, cond(V.list_get(lst, i))), z3.Select(r.t, elem_i.t))))
+            st.assume(z3.ForAll([x], z3.Implies(z3.Select(r.t, x), z3.And(0 <= h(x), h(x) < n, cond(V.list_get(lst, h(x))), elem_h.t == x))))
+            st.assume(*O.facts_for_card(r))
+            st.assume(V.set_card(r) <= n)
+            return r
         sample = proj(V.list_get(lst, z3.IntVal(0))) if proj else V.list_get(lst, z3.IntVal(0))
         ety = sample.ty
         (es,) = ety.sorts()
@@ -1246,8 +1262,6 @@ class CallMixin(ExprMixin):
 
     def ev_SetComp(self, node, st):
         g = self._comp_parts(node, st)
-        if g.ifs:
-            raise UnsupportedError("filtered set comprehension")
         for src, s in self._comp_source(g, st):
             if isinstance(src, Raise):
                 yield src, s
@@ -1258,8 +1272,13 @@ class CallMixin(ExprMixin):
             var = g.target.id
             facts = []
             proj = lambda x: SpecEval(self, s, s, {var: x}, facts).ev(self.pure_expr(node.elt, s))
-            r = self.set_of_list(src, s, proj)
-            s.assume(*facts)
+            cond = None
+            if g.ifs:
+                cond = lambda x: z3.And([SpecEval(self, s, s, {var: x}, facts).boolean(self.pure_expr(t, s)) for t in g.ifs])
+            r = self.set_of_list(src, s, proj, cond)
+            # facts produced under the comprehension's own binders are kept only when they do not mention a bound index
+            # (they would be meaningless for the other instances); the membership axioms above carry the semantics
+            s.assume(*[f for f in facts if not any(n_.startswith(("qi!", "qx!", "qj!")) for n_ in V.free_symbols(f))])
             yield r, s
 
     def ev_DictComp(self, node, st):
